@@ -743,7 +743,7 @@ class Interp:
                             pass
                 return ('extern', modname, orig)
             if e.id in ('len', 'next', 'iter', 'reversed', 'list', 'enumerate', 'isinstance', 'str', 'int', 'float', 'dict', 'tuple', 'range', 'bool', 'min', 'max', 'complex',
-                        'ord', 'chr', 'callable', 'object', 'type', 'getattr', 'hasattr', 'super', 'issubclass', 'repr', 'divmod', 'round', 'pow'):
+                        'ord', 'chr', 'callable', 'object', 'type', 'getattr', 'hasattr', 'super', 'issubclass', 'repr', 'divmod', 'round', 'pow', 'id'):
                 return ('builtin', e.id)
             if e.id in ('Exception', 'BaseException', 'ValueError', 'TypeError', 'KeyError', 'IndexError', 'ArithmeticError', 'ZeroDivisionError', 'OverflowError', 'AttributeError',
                         'LookupError', 'RuntimeError', 'StopIteration', 'RecursionError', 'OSError', 'NotImplementedError', 'AssertionError', 'UnicodeError'):
@@ -2256,6 +2256,10 @@ class Interp:
             return chr(args[0])
         if name == 'abs' and isinstance(args[0], (int, float)):
             return abs(args[0])
+        if name == 'id' and len(args) == 1:
+            if isinstance(args[0], (AList, ADict, ASet, AObj)) or getattr(args[0], '_host_object', False):
+                return id(args[0])          # identity of a heap object (stable while the abstract heap holds it)
+            raise Unrecognised(self.rule, f'id() of the non-heap value {args[0]!r} (interning is not modelled)', self.mod.rel)
         if name == 'type' and len(args) == 1:
             v = args[0]
             if isinstance(v, ARegex) or (isinstance(v, Sym) and v.kind in ('hostcall',) and v.args and v.args[0] == 're.compile'):
